@@ -160,6 +160,23 @@ def run_config(c, cfg):
             sv = step_violation(sp, rows, tags, dt)
             if sv:
                 c.violation(pre + sv[0], sv[1], case(list(script), rows))
+        # reference-led exploration with the lineage single-cell reference (vf/ref/lineage_ssa.py): conformance of every row
+        from ..ref import lineage_ssa as LS
+        lnet = RS.Net(sp, 'stochvol', False)
+        cell0 = dict(state={s_: float(sp['x0'][s_]) for s_ in sp['species']}, V=1.0, V0=1.0, t=0.0, t0=0.0)
+
+        def on_lin(choices, menus, ref):
+            got = run_lineage(sp, ref['us'], times, dt)
+            c.count('evaluations'); c.count('traces'); c.count('transitions', len(choices))
+            cs = case(ref['us'], got['rows'], dict(ref_rows=ref['rows'], letters=[m_.letters[ch].name for m_, ch in zip(menus, choices)]))
+            if got['consumed'] != len(ref['us']) or got['overrun']:
+                c.violation(pre + 'conformance-draws', 'implementation consumed %d(+%d) uniforms, reference %d' % (got['consumed'], got['overrun'], len(ref['us'])), cs)
+            elif not e1.rows_equal(ref['rows'], got['rows'], 1e-9):
+                c.violation(pre + 'conformance-rows', 'rows differ: reference %s implementation %s' % (ref['rows'], got['rows']), cs)
+            sv2 = step_violation(sp, got['rows'], tags, dt) if len(got['rows']) == len(times) else None
+            if sv2:
+                c.violation(pre + sv2[0], sv2[1], cs)
+        EXP.explore(lambda: LS.single_cell(lnet, times, dict(cell0), dt), cfg['bound'], on_lin)
         c.nontrivial((name, mode, grid))
         return
     safe = mode == 'safe'
@@ -233,7 +250,7 @@ def run(ctx):
                 'dt counter mirrored by a repeated assignment; ODE rule; rule scheduled at start and at every interior grid time) on models '
                 'without reactions, with reactions, and whose rate reads a rule-assigned parameter or species; modes deterministic, SSA, '
                 'safe, volume, delay (reference-led exploration of the scripted stream to the cost bound, every trace replayed) and lineage '
-                'single cell (every raw script over {0.02,0.3,0.6,0.97}^depth). Oracles on the real rows: fixed point of the repeated rules; '
+                'single cell (every raw script over {0.02,0.3,0.6,0.97}^depth, plus the reference-led tree of the lineage single-cell reference with conformance of every row). Oracles on the real rows: fixed point of the repeated rules; '
                 'counter advances by exactly 1 and ODE target by rate*dt between consecutive rows from the second on; a scheduled rule leaves '
                 'rows up to its time identical to the same script without the rule and has fired afterwards; plus conformance with the '
                 'reference simulator whose propensities are computed after the rules. states = (model, mode, grid) configurations.')
